@@ -27,7 +27,10 @@ static void gen_matrix(Draw &d, int n, int p, int opt, bool allow_missing, M &X,
     }
     // a column with one observed cell, or none (short matrices: still within 20 % of the cells when there are enough columns)
     if (allow_missing && n <= 6 && d.coin(10)) { sparse = true; int keep = d.coin(70) ? (int)d.i(0, n - 1) : -1; for (int i = 0; i < n; i++) miss[i] = (i != keep); }
-    if (sparse) { nzero++; }
+    if (sparse) {   // one observed cell: "every scale the option uses >= 0.02 or exactly 0" - for RMS (2) and level (5) that scale is |value|
+      nzero++;
+      if ((opt == 2 || opt == 5)) for (int i = 0; i < n; i++) if (!miss[i] && std::fabs(col[i]) < 0.03 && col[i] != 0.0) col[i] = col[i] < 0 ? -1.25 : 1.25;
+    }
     else if (!constant) {
       // enforce the domain on the observed cells
       ld s = 0; int cnt = 0; for (int i = 0; i < n; i++) if (!miss[i]) { s += col[i]; cnt++; }
